@@ -11,7 +11,7 @@ use crate::Ctx;
 use mdv_core::mdparse::Dump;
 use mdv_core::{json, Report, Value};
 
-const NAMES: [&[u8]; 10] = [b"a", b"fifteen-bytes-xy", b"\xc3\xa9t\xc3\xa9", b"\xf0\x9f\xa6\x80-pool", b"a b", b"tab\there", b"x", b"trail  ", b"\xe2\x82\xac1", b"\xf0\x9f\xa6\x80\xf0\x9f\xa6\x80"];
+const NAMES: [&[u8]; 12] = [b"a", b"fifteen-bytes-xy", b"\xc3\xa9t\xc3\xa9", b"\xf0\x9f\xa6\x80-pool", b"a b", b"tab\there", b"x", b"trail  ", b"\xe2\x82\xac1", b"\xf0\x9f\xa6\x80\xf0\x9f\xa6\x80", b"\n", b" "];
 const BAD: [&[u8]; 3] = [b"\xff\xfe\xfd", b"a\xffb", b"\xc3"];
 
 pub struct CaseResult {
@@ -117,7 +117,7 @@ pub fn run_case(n: usize, unreadable: u64, rot: usize, failpoint: bool) -> CaseR
 }
 
 pub fn run(ctx: &Ctx, rep: &mut Report) {
-    rep.rule = "thread count N x every subset U of threads with an unreadable (non-UTF-8) kernel name x 2 rotations of an 8-name alphabet (ASCII, 15/16 bytes, non-ASCII UTF-8, inner/trailing whitespace), plus the ThreadName fail point; nontrivial = cases with at least one named AND one unnamed listed thread".into();
+    rep.rule = "thread count N x every subset U of threads with an unreadable (non-UTF-8) kernel name x 3 rotations of a 12-name alphabet (ASCII, 15/16 bytes, non-ASCII UTF-8 incl. astral plane, inner/trailing whitespace, empty, whitespace only), plus the ThreadName fail point; nontrivial = cases with at least one named AND one unnamed listed thread".into();
     rep.assume("a thread's kernel name is what /proc/<pid>/task/<tid>/comm returns while the target is quiescent; trailing whitespace may or may not be trimmed");
     if let Some(case) = &ctx.replay {
         let g = |k: &str| case.get(k).and_then(|v| v.as_u64()).unwrap_or(0);
@@ -135,7 +135,7 @@ pub fn run(ctx: &Ctx, rep: &mut Report) {
     let max_full = if ctx.tier.is_thorough() { 8 } else { 6 };
     for n in 1..=max_full {
         for u in 0..(1u64 << n) {
-            for rot in [0usize, 3] {
+            for rot in [0usize, 3, 9] {
                 cases.push((n, u, rot, false));
             }
         }
